@@ -49,6 +49,23 @@ impl Aff {
         }
         AffFunc::from_mats(m, Array1::from(self.bias.clone()))
     }
+    /// storage order chosen by the entries (deterministic; used where a check has no layout dimension of its own):
+    /// column-major iff the matrix is at least 2x2 and a weighted sum of its entries is odd
+    pub fn to_real_auto(&self) -> AffFunc {
+        let r = self.mat.len();
+        let c = self.indim;
+        let mut h = 0i64;
+        for i in 0..r {
+            for j in 0..c {
+                h += ((i + 2 * j + 1) as i64) * ((self.mat[i][j] * 4.0) as i64);
+            }
+        }
+        if r >= 2 && c >= 2 && h.rem_euclid(2) == 1 {
+            self.to_real_f()
+        } else {
+            self.to_real()
+        }
+    }
     /// same function, matrix stored column-major (as produced by `.t().to_owned()` or Fortran-ordered npy data)
     pub fn to_real_f(&self) -> AffFunc {
         use ndarray::ShapeBuilder;
